@@ -230,6 +230,10 @@ func Verif_C10_twokeys() {
 	env.w.setTask(&timingEntry{baseEntry: baseEntry{delay: d2, key: "b"}, value: 2})
 	env.ticks(verifParam("maxRev")*n + 2)
 	verifAssert(len(env.fired) == 2, "two keys: both fire, each exactly once")
+	verifAssert(env.firedCount("a") == 1 && env.firedCount("b") == 1, "two keys: each key fires exactly once (also when both are due in the same tick)")
+	if steps1 == a+steps2 {
+		verifReach("same-tick")
+	}
 	for _, f := range env.fired {
 		if f.key == "a" {
 			verifAssert(f.tick == steps1 && f.val == 1, "two keys: a fires at its tick with its value")
